@@ -1,18 +1,26 @@
 (* C12 - state elimination yields a regular expression for the same language.
-   Proved here, for expression ASTs (Spec/Regex0.v) and GNFAs with AST labels (Model/GNFA.v), unbounded in
-   the number of states, the alphabet and the word length:
+   Proved here, unbounded in the number of states, the alphabet and the word length:
+   AST level (Spec/Regex0.v, Model/GNFA.v)
      - ripping a state other than the initial/final one preserves the GNFA's language (Kleene's argument);
      - ripping all inner states in ANY order leaves an expression denoting the GNFA's language;
      - the GNFA built from a valid DFA / NFA (fresh initial and final state, parallel edges merged by
-       union, empty-string edges as REps) has the source's language;
-     - hence elimination from a valid DFA / NFA gives an expression for exactly the source's language.
-   NOT modelled in Coq: the assembly of the expression *string* in to_regex (bracket rules, "?", "|")
-   and the library's parser.  That part of the property - "the library's own parser accepts the string
-   and the parsed language is the source's" - is checked on every run by the correspondence
-   (harness/props/c12.py: NFA.from_regex on the implementation's string, then the proved comparator).
-   The end-to-end theorems are therefore named ..._partial and the full statement is kept below. *)
+       union, empty-string edges as REps) has the source's language.
+   String level (Model/GNFAStr.v: the mirror model of the strings from_dfa / from_nfa / to_regex really
+   build - bracket rule, (r2)* rule, the four r4 cases, (r1r2r3)?, the branch for an empty r1r2r3, the
+   min-degree choice of the state to rip under an arbitrary iteration order of the candidates)
+     - every label is the plain printing of a properly parenthesised annotated tree that denotes what the
+       AST-level label denotes; from_dfa / from_nfa establish this and every rip step keeps it;
+     - the loop never fails and rips along an order that lists exactly the inner states;
+     - the printing of such a tree goes through the model of the library's lexer, validator,
+       shunting-yard and postfix evaluation (Model/RegexLex.v, RegexParse.v) and gives the tree back
+       (parentheses removed), and the compiler model (RegexBuild.v) builds a valid NFA for it;
+     - hence, end to end, for every valid DFA / NFA over ordinary characters and EVERY schedule:
+       to_regex returns a string that NFA.from_regex accepts and compiles to an NFA with exactly the
+       source's language (or None, and then the source's language is empty). *)
 From Coq Require Import List Arith Bool.
-From AV Require Import Base.Util Spec.Lang Spec.FA Spec.Regex0 Model.Decide Model.GNFA Proofs.Decide Proofs.GNFA.
+From AV Require Import Base.Util Spec.Lang Spec.FA Spec.Regex0 Model.Decide Model.GNFA Proofs.Decide Proofs.GNFA
+                       Model.GNFAStr Model.RegexParse Model.RegexBuild Proofs.GNFAStr Proofs.GNFAStrParse.
+From AV Require Spec.Regex.
 Import ListNotations.
 
 Theorem C12_rip_lang : forall g q, q <> g_init g -> q <> g_final g ->
@@ -47,32 +55,103 @@ Proof.
 Qed.
 Print Assumptions C12_gnfa_of_nfa_lang.
 
-(* The full property, at string level: for every rip order the implementation may choose, the
-   string it assembles is accepted by the library's parser and denotes the source's language.
-   `print` stands for GNFA.to_regex's string assembly and `parse` for the library's regex parser
-   (lexer + validator + shunting-yard + AST); neither is modelled in this development. *)
-Definition C12_to_regex_statement (str : Type)
-    (print_dfa : dfa -> list nat -> str) (print_nfa : nfa -> list nat -> str)
-    (parse : str -> option rex) : Prop :=
-  (forall d order, valid_dfa d = true -> (forall p, In p order <-> In p (d_states d)) ->
-     exists r, parse (print_dfa d order) = Some r /\ rden r =L L_dfa d) /\
-  (forall n order, valid_nfa n = true -> (forall p, In p order <-> In p (n_states n)) ->
-     exists r, parse (print_nfa n order) = Some r /\ rden r =L L_nfa n).
-
-(* proved part: the expression AST that state elimination computes - for every order that lists
-   exactly the source's states, in particular the min-degree order of _find_min_connected_node
-   under any tie-breaking - denotes exactly the source's language.  Missing: print/parse. *)
-Theorem C12_dfa_to_regex_partial : forall d order, valid_dfa d = true ->
+(* AST level, end to end: the expression AST that state elimination computes - for every order that
+   lists exactly the source's states - denotes exactly the source's language *)
+Theorem C12_dfa_elim_ast : forall d order, valid_dfa d = true ->
   (forall p, In p order <-> In p (d_states d)) ->
   rden (dfa_regex d order) =L L_dfa d.
 Proof. intros d order Hv Ho. apply dfa_regex_lang; assumption. Qed.
-Print Assumptions C12_dfa_to_regex_partial.
+Print Assumptions C12_dfa_elim_ast.
 
-Theorem C12_nfa_to_regex_partial : forall n order, valid_nfa n = true ->
+Theorem C12_nfa_elim_ast : forall n order, valid_nfa n = true ->
   (forall p, In p order <-> In p (n_states n)) ->
   rden (nfa_regex n order) =L L_nfa n.
 Proof. intros n order Hv Ho. apply nfa_regex_lang; assumption. Qed.
-Print Assumptions C12_nfa_to_regex_partial.
+Print Assumptions C12_nfa_elim_ast.
+
+(* ---- string level ---- *)
+(* the invariant: same states, and every string label is the printing of a properly parenthesised
+   tree (symbols accepted by [ok], all of them ordinary characters) denoting what the AST-level
+   label denotes.  from_dfa / from_nfa establish it ... *)
+Theorem C12_from_fa_string_invariant : forall sigma, forallb sym_ok sigma = true ->
+  (forall d, valid_dfa d = true -> d_syms d = sigma ->
+     grel (sym_in sigma) (sgnfa_of_dfa d) (gnfa_of_dfa d)) /\
+  (forall n, valid_nfa n = true -> n_syms n = sigma -> nfa_keys_nodup n = true ->
+     grel (sym_in sigma) (sgnfa_of_nfa n) (gnfa_of_nfa n)).
+Proof. intros sigma Hs. split; [exact (grel_of_dfa sigma Hs)|exact (grel_of_nfa sigma Hs)]. Qed.
+Print Assumptions C12_from_fa_string_invariant.
+
+(* ... and every rip step keeps it (all case splits of the loop body of to_regex) *)
+Theorem C12_rip_string_invariant : forall ok, (forall a, ok a = true -> sym_ok a = true) ->
+  forall s g q, grel ok s g -> grel ok (srip s q) (rip g q).
+Proof. exact grel_rip. Qed.
+Print Assumptions C12_rip_string_invariant.
+
+(* the while loop under ANY schedule (iteration orders of the candidate dict): no ValueError, no
+   fuel exhaustion; the states ripped avoid initial/final and cover every other state *)
+Theorem C12_loop_total : forall g sched, sg_ok g ->
+  exists order, sto_regex g sched = Ok (selim g order, order) /\
+    (forall q, In q order -> q <> s_init g /\ q <> s_final g) /\
+    (forall p, In p (s_states g) -> p = s_init g \/ p = s_final g \/ In p order).
+Proof. exact sto_regex_spec. Qed.
+Print Assumptions C12_loop_total.
+
+(* the string returned by the mirror model is `show x` for a properly parenthesised tree x with
+   xden x =L the source's language - for every schedule *)
+Theorem C12_to_regex_string_denotes :
+  (forall d sched, valid_dfa d = true -> forallb sym_ok (d_syms d) = true ->
+     exists order, dfa_to_regex d sched = Ok (selim (sgnfa_of_dfa d) order, order) /\
+       match selim (sgnfa_of_dfa d) order with
+       | Some st => exists x, st = show x /\ wf_lab (sym_in (d_syms d)) x = true /\ xden x =L L_dfa d
+       | None => forall w, ~ L_dfa d w
+       end) /\
+  (forall n sched, valid_nfa n = true -> forallb sym_ok (n_syms n) = true -> nfa_keys_nodup n = true ->
+     exists order, nfa_to_regex n sched = Ok (selim (sgnfa_of_nfa n) order, order) /\
+       match selim (sgnfa_of_nfa n) order with
+       | Some st => exists x, st = show x /\ wf_lab (sym_in (n_syms n)) x = true /\ xden x =L L_nfa n
+       | None => forall w, ~ L_nfa n w
+       end).
+Proof. split; [exact dfa_to_regex_string|exact nfa_to_regex_string]. Qed.
+Print Assumptions C12_to_regex_string_denotes.
+
+(* the library's parser (model) on the printing of a properly parenthesised tree: the tree itself
+   without its parentheses, with the same denotation; NFA.from_regex with the alphabet returns a
+   valid NFA over that alphabet with the denoted language *)
+Theorem C12_show_parses : forall sigma x, NoDup sigma -> forallb sym_ok sigma = true ->
+  wf_lab (sym_in sigma) x = true ->
+  parse (show x) = Ok (cv x) /\ (forall s, Regex.den s (cv x) =L xden x) /\
+  exists m, compile (show x) (Some sigma) = Ok m /\ valid_nfa m = true /\ n_syms m = sigma /\ L_nfa m =L xden x.
+Proof.
+  intros sigma x Hnd Hs Hw. destruct (show_compiles sigma x Hnd Hs Hw) as [Hp Hc].
+  split; [exact Hp|]. split; [intro s; apply den_cv|exact Hc].
+Qed.
+Print Assumptions C12_show_parses.
+
+(* THE PROPERTY, end to end: for every valid source over ordinary characters and every schedule,
+   to_regex returns (never fails); a string result is accepted by the library's parser, the parsed
+   expression denotes the source's language, and NFA.from_regex(string, input_symbols) is a valid NFA
+   with exactly the source's language; the result None means the source's language is empty.
+   regex_ok st sigma L := exists r m, parse st = Ok r /\ (forall s, den s r =L L) /\
+     compile st (Some sigma) = Ok m /\ valid_nfa m = true /\ n_syms m = sigma /\ L_nfa m =L L *)
+Theorem C12_dfa_to_regex : forall d sched, valid_dfa d = true -> forallb sym_ok (d_syms d) = true ->
+  exists s order, dfa_to_regex d sched = Ok (s, order) /\
+    match s with
+    | Some st => regex_ok st (d_syms d) (L_dfa d)
+    | None => forall w, ~ L_dfa d w
+    end.
+Proof. exact dfa_to_regex_full. Qed.
+Print Assumptions C12_dfa_to_regex.
+
+(* nfa_keys_nodup: no symbol is listed twice in a row (a Python dict cannot; valid_nfa does not say it) *)
+Theorem C12_nfa_to_regex : forall n sched, valid_nfa n = true -> forallb sym_ok (n_syms n) = true ->
+  nfa_keys_nodup n = true ->
+  exists s order, nfa_to_regex n sched = Ok (s, order) /\
+    match s with
+    | Some st => regex_ok st (n_syms n) (L_nfa n)
+    | None => forall w, ~ L_nfa n w
+    end.
+Proof. exact nfa_to_regex_full. Qed.
+Print Assumptions C12_nfa_to_regex.
 
 (* the AST matcher the driver uses for its bounded cross checks is exact *)
 Theorem C12_rmatch_exact :
@@ -110,6 +189,39 @@ Example C12_example_dfa :
   label (gnfa_of_dfa ex_dfa) 0 1 = Some (RUnion (RSym 0) (RSym 1)) /\
   (* the cross check is not vacuous: a wrong expression is caught *)
   rex_diff_upto (RCat (RUnion (RSym 0) (RSym 1)) (RStar (RSym 0))) (dfa_acc ex_dfa) [0; 1] 3 = Some [0; 0].
+Proof. vm_compute. repeat split. Qed.
+
+(* string level: the defect reproducer over the character 'a' (code 26): 0 -""-> 1 -""-> 2, 0 -a-> 2.
+   Every schedule gives "a?" (the unrepaired code gave "(|a)"); the model of the library's parser
+   accepts it; with the candidates in the order 2,1,0 the states are ripped in the order 1,2,0 *)
+Definition ex_nfa_s : nfa :=
+  mknfa [0; 1; 2] [26] [(0, [(None, [1]); (Some 26, [2])]); (1, [(None, [2])])] 0 [2].
+
+Example C12_example_nfa_string :
+  valid_nfa ex_nfa_s = true /\ nfa_keys_nodup ex_nfa_s = true /\ forallb sym_ok (n_syms ex_nfa_s) = true /\
+  nfa_to_regex ex_nfa_s [] = Ok (Some [26; 9], [1; 0; 2]) /\
+  nfa_to_regex ex_nfa_s [[2; 1; 0]; [2; 0]; [0]] = Ok (Some [26; 9], [1; 2; 0]) /\
+  parse [26; 9] = Ok (Regex.ROpt (Regex.RSym 26)) /\
+  slabel (sgnfa_of_nfa ex_nfa_s) 0 2 = Some [26] /\ slabel (sgnfa_of_nfa ex_nfa_s) 0 1 = Some [].
+Proof. vm_compute. repeat split. Qed.
+
+(* parallel edges, a cycle and a loop over 'a','b' (26, 27): "(a|b)(a(a|b)|b)*" *)
+Definition ex_dfa_s : dfa :=
+  mkdfa [0; 1] [26; 27] [(0, [(26, 1); (27, 1)]); (1, [(26, 0); (27, 1)])] 0 [1] false.
+
+Example C12_example_dfa_string :
+  valid_dfa ex_dfa_s = true /\
+  dfa_to_regex ex_dfa_s [] = Ok (Some [2; 26; 4; 27; 3; 2; 26; 2; 26; 4; 27; 3; 4; 27; 3; 7], [0; 1]) /\
+  (exists m, compile [2; 26; 4; 27; 3; 2; 26; 2; 26; 4; 27; 3; 4; 27; 3; 7] (Some [26; 27]) = Ok m /\
+             map (nfa_acc m) [[]; [26]; [27; 27]; [26; 26]; [27; 26; 27]] = map (dfa_acc ex_dfa_s) [[]; [26]; [27; 27]; [26; 26]; [27; 26; 27]]).
+Proof. split; [vm_compute; reflexivity|]. split; [vm_compute; reflexivity|]. eexists. split; vm_compute; reflexivity. Qed.
+
+(* the hypothesis nfa_keys_nodup is needed: a row listing "" twice (impossible for a Python dict)
+   would merge to the label "|" and give "(|)", which the parser refuses *)
+Example C12_example_keys_needed :
+  let n := mknfa [0; 1] [26] [(0, [(None, [1]); (None, [1])])] 0 [1] in
+  valid_nfa n = true /\ nfa_keys_nodup n = false /\
+  nfa_to_regex n [] = Ok (Some [2; 4; 3], [0; 1]) /\ parse [2; 4; 3] = Err (Invalid 10).
 Proof. vm_compute. repeat split. Qed.
 
 (* ripping really needs the side condition: ripping the initial state loses the language *)
